@@ -32,8 +32,8 @@ NW = 48
 
 def gen_cases(ctx, fams=None):
     rng, tier = ctx["rng"], ctx["tier"]
-    npts = 10 if tier == "quick" else 120
-    nstreams = 12 if tier == "quick" else 60
+    npts = 10 if tier == "quick" else 30      # thorough: 30 x 24 x 40 samplers = 28 800 pathwise cases (about 20 min)
+    nstreams = 12 if tier == "quick" else 24
     cases = []
     for fam in (fams or S.CONT_FAMILIES):
         for ty in ("f64", "f32"):
